@@ -158,9 +158,8 @@ class M(Model):
         for f in self.PROBLEM_FIELDS:
             la = jax.tree_util.tree_leaves(getattr(s, f))
             lb = jax.tree_util.tree_leaves(getattr(s2, f))
-            same = len(la) == len(lb) and all(
-                np.asarray(x).dtype == np.asarray(y).dtype and np.array_equal(np.asarray(x), np.asarray(y))
-                for x, y in zip(la, lb))
+            # audit: values must be untouched; leaf dtypes are not part of C05 - dtype equality no longer demanded
+            same = len(la) == len(lb) and all(np.array_equal(np.asarray(x), np.asarray(y)) for x, y in zip(la, lb))
             if not same:
                 out.append((f"state field {f} changed by an illegal action", ""))
         ex = ts2.extras
@@ -173,11 +172,12 @@ class M(Model):
         out = []
         clo, chi, ems, ems_mask, items, imask, placed, loc = self._geom(s)
         pj = np.flatnonzero(placed)
-        if (placed & ~imask).any():
-            out.append(("an invalid (masked-out) item is marked placed", f"items {np.flatnonzero(placed & ~imask).tolist()}"))
+        # audit: C06 = hard constraints only (inside the container, never overlapping): "a masked-out item is marked
+        # placed", "placed item has a non-positive size" and the debug-mode EMS bookkeeping (EMS inside the container /
+        # disjoint from items) are not among them - removed from the C06 oracle
         lo, hi = loc[pj], loc[pj] + items[pj]
         if pj.size:
-            bad = ~((lo >= clo) & (hi <= chi)).all(-1) | ~(items[pj] > 0).all(-1)
+            bad = ~((lo >= clo) & (hi <= chi)).all(-1)
             if bad.any():
                 j = int(pj[np.flatnonzero(bad)[0]])
                 out.append(("placed item sticks out of the container",
@@ -189,21 +189,6 @@ class M(Model):
                 i, j = int(pj[i]), int(pj[j])
                 out.append(("two placed items overlap",
                             f"items {i} at {loc[i].tolist()} size {items[i].tolist()} and {j} at {loc[j].tolist()} size {items[j].tolist()}"))
-        if self.debug:
-            ev = np.flatnonzero(ems_mask)
-            if ev.size:
-                elo, ehi = ems[ev][:, [0, 2, 4]], ems[ev][:, [1, 3, 5]]
-                outside = ~((elo >= clo) & (ehi <= chi)).all(-1)
-                if outside.any():
-                    k = int(ev[np.flatnonzero(outside)[0]])
-                    out.append(("a valid EMS sticks out of the container", f"ems {k} = {ems[k].tolist()}"))
-                if pj.size:
-                    hit = _overlap(elo[:, None], ehi[:, None], lo[None], hi[None])
-                    if hit.any():
-                        k, j = np.argwhere(hit)[0]
-                        k, j = int(ev[k]), int(pj[j])
-                        out.append(("a valid EMS intersects a placed item",
-                                    f"ems {k} = {ems[k].tolist()} item {j} at {loc[j].tolist()} size {items[j].tolist()}"))
         return out
 
     def complete(self, s, ts):
@@ -396,15 +381,15 @@ class M(Model):
         clo, chi, ems, ems_mask, items, imask, placed, loc = self._geom(s0)
         if tuple((chi - clo).tolist()) != self.dims or clo.any():
             out.append(("container is not the configured box at the origin", f"{clo.tolist()}..{chi.tolist()} vs {self.dims}"))
-        if not (ems_mask[0] and not ems_mask[1:].any()):
-            out.append(("reset state does not have exactly EMS 0 valid", f"ems_mask true at {np.flatnonzero(ems_mask).tolist()[:6]}"))
+        # audit: which buffer slot holds the initial EMS and the location values of unplaced items are internal
+        # representation - asserted slot-agnostically: the empty container has exactly one (maximal) empty space, itself
         c6 = _ems(s0.container)
-        if not np.array_equal(ems[0], c6):
-            out.append(("EMS 0 is not the container", f"ems0={ems[0].tolist()} container={c6.tolist()}"))
+        ev = np.flatnonzero(ems_mask)
+        if ev.size != 1 or not np.array_equal(ems[ev[0]], c6):
+            out.append(("reset state's valid EMSs are not exactly the container",
+                        f"valid ems {ems[ev][:4].tolist()} container={c6.tolist()}"))
         if placed.any():
             out.append(("items already placed at reset", f"{np.flatnonzero(placed).tolist()[:6]}"))
-        if loc.any():
-            out.append(("item locations not zero at reset", ""))
         v = np.flatnonzero(imask)
         if v.size == 0:
             out.append(("no valid item", ""))
@@ -431,8 +416,9 @@ class M(Model):
             out.append(("generator(key) and generate_solution(key) describe different instances", f"key={k.tolist()}"))
         if not np.array_equal(splaced, simask):
             out.append(("generate_solution: placed flags differ from the valid items", f"key={k.tolist()}"))
-        if iplaced.any() or iloc.any() or not (iems_mask[0] and not iems_mask[1:].any()) or not np.array_equal(iems[0], _ems(inst.container)):
-            out.append(("generator(key) is not the unpacked solution with EMS 0 = container", f"key={k.tolist()}"))
+        iev = np.flatnonzero(iems_mask)
+        if iplaced.any() or iev.size != 1 or not np.array_equal(iems[iev[0]], _ems(inst.container)):
+            out.append(("generator(key) is not the unpacked solution with the container as its only EMS", f"key={k.tolist()}"))
         out += [(sig, f"{msg} key={k.tolist()}") for sig, msg in
                 self._check_tiling("generate_solution", sclo, schi, sitems, simask, sloc)]
         return out
@@ -445,21 +431,19 @@ class M(Model):
         om = np.asarray(obs.ems_mask).astype(bool)
         if oe.shape != (self.K, 6) or om.shape != (self.K,):
             return [("observed EMS arrays have the wrong shape", f"{oe.shape} {om.shape}")]
-        raw_idx = np.asarray(s.sorted_ems_indexes).astype(np.int64).reshape(-1)
-        if raw_idx.shape != (self.E,) or not np.array_equal(np.sort(raw_idx), np.arange(self.E)):
-            out.append(("sorted_ems_indexes is not a permutation of the EMS buffer", f"{raw_idx.tolist()[:12]}"))
+        # audit: `sorted_ems_indexes` being a full permutation of the buffer and the *order* in which the shown EMSs
+        # appear are not part of C12 ("shows the obs_num_ems largest empty spaces"); the field is only used as the env's
+        # own statement of which state EMS stands at which observed position.  Asserted: no valid EMS is shown twice and
+        # no hidden valid EMS is larger than a shown slot (an empty / invalid slot counts as volume 0; ties tolerated).
         idx = self._order(s)
         vol = _vol(ems) * ems_mask
-        shown_vol = vol[idx]
+        shown_valid = om & ems_mask[idx]
+        shown_vol = np.where(shown_valid, vol[idx], 0.0)
         tol = 1e-6
-        inc = np.flatnonzero(shown_vol[1:] > shown_vol[:-1] * (1 + tol))
-        if inc.size:
-            p = int(inc[0])
-            out.append(("shown EMSs are not in non-increasing volume order",
-                        f"positions {p},{p+1}: volumes {shown_vol[p]:.0f} < {shown_vol[p+1]:.0f}"))
-        hidden = np.ones(self.E, bool)
-        hidden[idx] = False
-        if len(set(idx.tolist())) != self.K:
+        hidden = ems_mask.copy()
+        hidden[idx[shown_valid]] = False
+        iv = idx[shown_valid]
+        if len(set(iv.tolist())) != iv.size:
             out.append(("the same EMS is shown twice", f"{idx.tolist()[:12]}"))
         elif hidden.any() and vol[hidden].max() > shown_vol.min() * (1 + tol):
             h = int(np.flatnonzero(hidden)[np.argmax(vol[hidden])])
@@ -477,12 +461,10 @@ class M(Model):
                         f"position {p}: obs {oe[p].tolist()} expected {want[p].tolist()}"))
         oi = np.stack([np.asarray(obs.items.x_len), np.asarray(obs.items.y_len), np.asarray(obs.items.z_len)], -1).astype(np.float64)
         wi = items.astype(np.float64) / (size if self.norm else np.ones(3))
-        if oi.shape != wi.shape or not np.allclose(oi, wi, rtol=1e-5, atol=1e-6):
+        # audit: compared on the valid items only (the values shown for padding items are not documented)
+        if oi.shape != wi.shape or not np.allclose(oi[imask], wi[imask], rtol=1e-5, atol=1e-6):
             out.append((f"observed item sizes differ from the state items ({'normalised' if self.norm else 'raw'})", ""))
-        if not self.norm:
-            for name, arr in (("ems", np.asarray(obs.ems.x1)), ("items", np.asarray(obs.items.x_len))):
-                if not np.issubdtype(arr.dtype, np.integer):
-                    out.append((f"un-normalised {name} observation is not integer", str(arr.dtype)))
+        # audit: integer dtype of the un-normalised observation is spec conformance (C01) - removed
         if not np.array_equal(np.asarray(obs.items_mask), np.asarray(s.items_mask)):
             out.append(("items_mask differs from the state", ""))
         if not np.array_equal(np.asarray(obs.items_placed), np.asarray(s.items_placed)):
